@@ -6,7 +6,8 @@
    Strings are sequences of TOKENS.  A token is either one delimiter character or an atomic run of
    letters/digits with a fixed meaning (the driver concretises each token into several spellings):
 
-       ":"  "/"  "\\"  "@"  "?"  "#"  "."  "["  "]"          the delimiters themselves
+       ":"  "/"  "@"  "?"  "#"  "."  "["  "]"          the delimiters themselves
+       "B"   the backslash character (a token name of its own: a TLC cfg file cannot spell a backslash string)
        "%"   a percent-escape of a delimiter (%2F %5C %40 %3A %23 %3F)   -- never a delimiter
        "T"   ASCII tab / LF / CR          (removed everywhere before parsing)
        "S"   space         "C"   another C0 control        (stripped at both ends only)
@@ -28,13 +29,13 @@ CONSTANTS FlatAlphabet, FlatLen,      \* every string over FlatAlphabet up to Fl
           PrefixSchemes, PrefixSlashes, \* authority-introducing prefixes <<scheme, ":", a, b>>, a and b \in PrefixSlashes
           BaseScheme                  \* scheme of the service URL the browser resolves against: "H" or "Hs"
 
-AllTokens == {":", "/", "\\", "@", "?", "#", ".", "[", "]", "%", "T", "S", "C", "H", "Hs", "l", "i", "a", "e", "x", "P", "8"}
+AllTokens == {":", "/", "B", "@", "?", "#", ".", "[", "]", "%", "T", "S", "C", "H", "Hs", "l", "i", "a", "e", "x", "P", "8"}
 
-Slash      == {"/", "\\"}                       \* equivalent for special schemes
+Slash      == {"/", "B"}                       \* equivalent for special schemes
 StripSet   == {"S", "C", "T"}                   \* C0 control or space (tab/LF/CR are C0 controls too)
 AlphaStart == {"H", "Hs", "l", "a", "e", "x", "P"}
 SchemeChar == AlphaStart \cup {"8", "i", "."}   \* ASCII alphanumeric, "+", "-", "."
-AuthorityEnd == {"/", "\\", "?", "#"}           \* for special schemes the backslash ends the authority too
+AuthorityEnd == {"/", "B", "?", "#"}           \* for special schemes the backslash ends the authority too
 DomainTok  == {"H", "Hs", "l", "a", "e", "x", "P", "."}
 
 Min(I) == CHOOSE i \in I : \A j \in I : i <= j
@@ -165,7 +166,7 @@ WhitespaceInvisible(c) == /\ Ref(<<"T">> \o c.s, Al(c)) = Ref(c.s, Al(c))
                           /\ Ref(<<"C", "S">> \o c.s, Al(c)) = Ref(c.s, Al(c))
                           /\ (Len(c.s) >= 2 => Ref(Insert(c.s, 1, "T"), Al(c)) = Ref(c.s, Al(c)))
 \* for special schemes a backslash is a slash
-BackslashIsSlash(c) == Ref([k \in 1..Len(c.s) |-> IF c.s[k] = "\\" THEN "/" ELSE c.s[k]], Al(c)) = Ref(c.s, Al(c))
+BackslashIsSlash(c) == Ref([k \in 1..Len(c.s) |-> IF c.s[k] = "B" THEN "/" ELSE c.s[k]], Al(c)) = Ref(c.s, Al(c))
 \* a fragment never changes the origin (what the flow appends: "#token=..." / "&token=...")
 FragmentIrrelevant(c) == (c.s = <<>> \/ c.s[Len(c.s)] \notin StripSet) => Ref(c.s \o <<"#", "x">>, Al(c)) = Ref(c.s, Al(c))
 \* a string that starts with one slash followed by a non-slash stays on the service's origin
@@ -193,7 +194,7 @@ Conforms(c, o) ==
            | "wrong_key" (re-signed with another key) | "stream_key" (signed with the un-derived token key)
            | "garbage" | "absent" | "reencoded" (different text, SAME bytes: not tampering)
      age   "fresh" (0s) | "mid" | "edge_in" (max-1) | "edge" (=max; either verdict) | "edge_out" (max+1) | "old"
-           | "future" (minted later than now; either verdict for a refusal, but see below)
+           | "future" (minted later than now, e.g. clock skew between workers: not expired, either verdict)
      st    "match" | "differs" | "prefix" | "extended" | "case" | "absent"                                   *)
 CookieMuts   == {"none", "payload_byte", "mac_byte", "truncated", "extended", "wrong_key", "stream_key", "garbage",
                  "absent", "reencoded"}
@@ -203,10 +204,10 @@ CookieFlows  == {"same_origin", "external"}
 CookieCases == {[mut |-> m, age |-> a, st |-> s, flow |-> f] : m \in CookieMuts, a \in CookieAges, s \in CookieStates, f \in CookieFlows}
 
 Untampered(c) == c.mut \in {"none", "reencoded"}
-Unexpired(c)  == c.age \in {"fresh", "mid", "edge_in", "edge"}
+Unexpired(c)  == c.age \in {"fresh", "mid", "edge_in", "edge", "future"}
 StateOk(c)    == c.st = "match"
 MayComplete(c)  == Untampered(c) /\ Unexpired(c) /\ StateOk(c)
-MustComplete(c) == MayComplete(c) /\ c.age # "edge"          \* not part of the statement; used as a harness sanity fact only
+MustComplete(c) == MayComplete(c) /\ c.age \notin {"edge", "future"} /\ c.mut = "none"          \* not part of the statement; used as a harness sanity fact only
 CookieExpected(c) == [may |-> MayComplete(c), must |-> MustComplete(c)]
 
 CookieSane(c) == (MustComplete(c) => MayComplete(c)) /\ (c.mut = "absent" => ~MayComplete(c))
